@@ -391,6 +391,10 @@ class Expr:
                 return ("BTrunc", ie)
             fail("bound expression: static_cast<%s>(expression) not understood" % cty)
         if re.match(r"[\d.]", t):
+            # wave 3: the model evaluates int op int in IndexType and everything else in binary64; a literal of another
+            # arithmetic type (3.0f, 3.0L, 3u, 3l) computes the bound differently
+            if not re.match(r"0[xX]", t) and t[-1] in "fFlLuU":
+                fail("bound expression: literal %s is neither int nor double (arithmetic of another type)" % t)
             k, v = parse_number(t)
             return ("BInt", v) if k == "int" else ("BReal", v)
         fail("bound expression: unknown operand %r in %s" % (t, J(self.toks)))
@@ -1914,6 +1918,8 @@ SELF_TEST_MUTATIONS = [
     ("tapkee/methods/landmark_isomap.hpp", "        parameters[target_dimension].checked()",
      "        Parameter::create(\"number of landmarks\", n_landmarks).checked().satisfies(InClosedRange<IndexType>(3, n_vectors)).orThrow();\n"
      "        parameters[target_dimension].checked()", "check on a derived quantity"),
+    ("tapkee/methods/landmark_multidimensional_scaling.hpp", "InClosedRange<ScalarType>(3.0 / n_vectors, 1.0)",
+     "InClosedRange<ScalarType>(3.0f / n_vectors, 1.0)", "bound computed in float"),
 ]
 
 
